@@ -4,6 +4,7 @@ import (
 	"bytes"
 	"fmt"
 	"io"
+	"math"
 	"math/big"
 	"math/bits"
 )
@@ -39,10 +40,17 @@ func (p *berTLVPrefixer) EncodeLength(maxLen, dataLen int) ([]byte, error) {
 		return nil, fmt.Errorf(fieldLengthIsLargerThanMax, dataLen, maxLen)
 	}
 
-	buf := big.NewInt(int64(dataLen)).Bytes()
-	if dataLen <= 127 {
-		return buf, nil
+	if dataLen < 0 {
+		return nil, fmt.Errorf(invalidLength, dataLen)
 	}
+
+	// short form: one byte, also for a zero length (big.Int renders 0 as no
+	// bytes at all)
+	if dataLen <= 127 {
+		return []byte{byte(dataLen)}, nil
+	}
+
+	buf := big.NewInt(int64(dataLen)).Bytes()
 	return append([]byte{setMSB(uint8(len(buf)))}, buf...), nil
 }
 
@@ -80,7 +88,11 @@ func (p *berTLVPrefixer) DecodeLength(maxLen int, data []byte) (int, int, error)
 	}
 	read += len(length)
 
-	dataLen := int(new(big.Int).SetBytes(length).Int64())
+	bigLen := new(big.Int).SetBytes(length)
+	if !bigLen.IsInt64() || bigLen.Int64() > math.MaxInt {
+		return 0, read, fmt.Errorf("TLV length does not fit into int")
+	}
+	dataLen := int(bigLen.Int64())
 
 	// checking maxLen for a 0 is a way to disable check and also support
 	// backwards compatibility with the old contract that didn't have maxLen
